@@ -120,7 +120,7 @@ def main(argv=None):
 
     rng = random.Random("%d:%s:%d" % (a.seed, a.prop, a.slice))
     deadline = t0 + a.budget if a.budget else None
-    timeout = mod.TIERS[a.tier].get("case_timeout", 10 if a.tier == "quick" else 60)
+    timeout = mod.TIERS[a.tier].get("case_timeout", 20 if a.tier == "quick" else 60)
     cases = mod.plan(a.tier, rng, a.slice, a.nslices, stats)
     drive(mod, cases, stats, timeout, deadline)
     out = {
